@@ -268,6 +268,44 @@ def resInterop (c : ParamC) (f : DummyF) : Bool :=
 def cbResF (cb : CBase) (ptr : Nat) (fb : FBase) : DummyF :=
   if cb == .void || ptr ≥ 1 then ⟨.cptr, false, .scalar⟩ else ⟨fb, false, .scalar⟩
 
+
+/-! ## user structs: `Wrapc.wrap_struct` (C copy of the struct) and `Wrapf.wrap_struct` (bind(C) derived type)
+    walk the same `node.variables` list -/
+
+/-- what the two emitters read from one member declaration -/
+structure Member where
+  cbase : CBase      -- class of typemap.c_type
+  fbase : FBase      -- class of (f_c_type or f_type)   (gen_arg_as_fortran(bindc=True); `character(kind=C_CHAR)` for char)
+  ptr : Nat          -- ast.is_indirect()
+  alen : Nat         -- product of the array extents, 0 for a scalar member
+  deriving DecidableEq, Repr
+
+structure FieldC where
+  base : CBase
+  ptr : Nat
+  alen : Nat
+  deriving DecidableEq, Repr
+
+structure FieldF where
+  base : FBase
+  alen : Nat
+  deriving DecidableEq, Repr
+
+/-- struct member versus derived-type component (18.3.4): same array length; a pointer member pairs with
+    `type(C_PTR)`; otherwise an interoperable type -/
+def fieldInterop (c : FieldC) (f : FieldF) : Bool :=
+  c.alen == f.alen && (if c.ptr ≥ 1 then f.base == .cptr else baseMatch c.base f.base)
+
+/-- `ast.gen_arg_as_c() + ";"` -/
+def memberC (m : Member) : FieldC := ⟨m.cbase, m.ptr, m.alen⟩
+
+/-- `type(C_PTR) :: name[(dims)]` for an indirect member, else the interoperable type with the (reversed) extents -/
+def memberF (m : Member) : FieldF :=
+  if m.ptr ≥ 1 then ⟨.cptr, m.alen⟩ else ⟨m.fbase, m.alen⟩
+
+def structC (ms : List Member) : List FieldC := ms.map memberC
+def structF (ms : List Member) : List FieldF := ms.map memberF
+
 /-! ## decoding of the Nat-encoded tables (Gen/Interop.lean) and of driver requests -/
 
 def decCBase (c n : Nat) : Option CBase :=
